@@ -300,11 +300,8 @@ func c19RunInBubble(c c19Case) (out Outcome) {
 		cl.Release(op.Marker)
 	}
 	synctest.Wait()
+	// ("promptly": a caller inside a retry back-off sleep - up to 33 s - does not get to finish it)
 	bound := 100 * time.Millisecond
-	if c.Point == "backoff" {
-		// a caller inside a retry back-off sleep notices at the end of that sleep
-		bound = 40 * time.Second
-	}
 	time.Sleep(bound)
 	synctest.Wait()
 
@@ -502,7 +499,7 @@ func TestC19_Close(t *testing.T) {
 			"(with or without a lease renewer); then Close runs (once, twice, or twice "+
 			"concurrently) and 0/1/10/500 virtual ms later the awaited event happens (the dial completes, ZooKeeper "+
 			"answers...). Oracle: Close takes zero virtual time; every in-flight call returns within 100 virtual ms "+
-			"(a caller inside a back-off sleep: by the end of it) with success or a client-closed error; calls issued "+
+			"(also a caller inside a back-off sleep) with success or a client-closed error; calls issued "+
 			"afterwards fail at once with a client-closed error; 5 virtual minutes later no client-side connection is "+
 			"open at the simulated servers, a further minute sees no dial / ZooKeeper lookup / meta scan, and no "+
 			"goroutine of the client is left. Non-trivial = Close ran while >= 1 call was in flight; distinct by case hash")
